@@ -360,12 +360,15 @@ class DeferDriver:
         else:
             k, fk = stop
             ctx.pending = pending[k + 1:]
-            if fk == 'disable_dispatch':
+            if ctx.injected:
+                # whichever fault stopped the release first, events that a
+                # callback dispatched after disabling are queued behind it
                 for ev, fresh in ctx.injected:
                     ctx.pending.append(
                         (ev, fresh, not self._listening(ctx, ev)))
                 ctx.hits['dispatch_behind_backlog'] += 1
-            if fk in ('disable', 'disable_dispatch'):
+            if fk in ('disable', 'disable_dispatch') or any(
+                    f[1] in ('disable', 'disable_dispatch') for f in fired):
                 ctx.enabled = False
             else:
                 # aborted by the exception: flag is whatever the dispatcher
